@@ -526,6 +526,10 @@ def check(ctx: Ctx):
     identities(ctx, table)
     stateless_rule(ctx)
     wiring(ctx)
+    from ..rules import support
+
+    support.check_field_types(ctx)
+    ctx.expect("LAYOUT", 3)
     ctx.expect("FORMULA", 24)
     ctx.expect("ZERO", 8)
     ctx.expect("ARG", 8)
